@@ -193,13 +193,23 @@ static void wait_for_progress(void)
     if (task_active()) task_block(progressed, p, -1);
 }
 
+/* how the most recent read() of each task on a simulated descriptor ended: > 0 data, 0 end of file, < 0 -errno */
+long simfd_last_read_t[TASK_MAX];
+static ssize_t sim_read_impl(int fd, void *buf, size_t n);
 ssize_t sim_read(int fd, void *buf, size_t n)
+{
+    ssize_t r;
+    if (!is_sim(fd)) return read(fd, buf, n);
+    r = sim_read_impl(fd, buf, n);
+    simfd_last_read_t[task_current()] = r < 0 ? -(long)errno : (long)r;
+    return r;
+}
+static ssize_t sim_read_impl(int fd, void *buf, size_t n)
 {
     fdent_t *e;
     kobj_t *k;
     int f, out;
     size_t avail, take;
-    if (!is_sim(fd)) return read(fd, buf, n);
     sim_step();
     task_yield();
     e = ent(fd);
